@@ -75,3 +75,19 @@ Theorem C16_braces_round_register :
     eval_rval rt mt (S (S fuel)) in_matrix s (RExpr (EReg r)) = eval_rval rt mt (S fuel) in_matrix s (RReg r).
 Proof. exact braces_round_register. Qed.
 Print Assumptions C16_braces_round_register.
+
+(* a quoted string may contain any characters other than a double quote: followed on its line by
+   text without a double quote it is one token whose content is the text between the quotes.
+   (When another quoted string follows on the same line and the text ends in a backslash, the
+   implementation joins the two: known finding D34.) *)
+Theorem C16_quoted_string_is_one_token :
+  forall s rest, no_quote s = true -> no_quote rest = true ->
+    alt_string (String.append dq (String.append s (String (ascii_of_nat quote) rest)))
+    = Some (String.append dq (String.append s dq), rest).
+Proof. exact quoted_string_is_one_token. Qed.
+Print Assumptions C16_quoted_string_is_one_token.
+
+Theorem C16_quoted_string_content :
+  forall s, no_quote s = true -> string_content (String.append dq (String.append s dq)) = s.
+Proof. exact quoted_string_content. Qed.
+Print Assumptions C16_quoted_string_content.
